@@ -124,10 +124,26 @@ pub struct Geo {
     pub lines: u32,
 }
 
+/// Share (percent of the non-small runs) that start on a screen larger than 140x40.
+/// VERIF_BIG_GEO_PCT overrides it (used to soak the oracles on big screens).
+pub fn big_geo_pct() -> u64 {
+    static V: std::sync::OnceLock<u64> = std::sync::OnceLock::new();
+    *V.get_or_init(|| std::env::var("VERIF_BIG_GEO_PCT").ok().and_then(|s| s.parse().ok()).unwrap_or(3).min(100))
+}
+
+/// Counts around word-size boundaries (shifts by a whole number of 64-bit words).
+const WORDISH: &[u32] = &[31, 32, 33, 63, 64, 65, 127, 128, 129, 191, 192, 193, 255, 256];
+
 pub fn geometry(r: &mut Rng, small_pct: u32) -> Geo {
     if r.chance(small_pct as u64, 100) {
         let cols = *r.pick(&[1u32, 1, 2, 2, 3, 3, 4, 5, 5, 6, 7, 8, 9, 10, 12, 16, 17]);
         let lines = *r.pick(&[1u32, 1, 2, 2, 3, 3, 4, 4, 5, 5, 6, 7, 8]);
+        Geo { cols, lines }
+    } else if r.chance(big_geo_pct(), 100) {
+        // beyond the ordinary 140x40 envelope: word-size boundaries of per-row / per-screen
+        // bitsets and small fixed-capacity tables (64, 128, 192, 256 columns; 64, 128 lines)
+        let cols = *r.pick(&[129u32, 132, 160, 191, 192, 193, 200, 255, 256, 257, 300]);
+        let lines = *r.pick(&[24u32, 41, 50, 63, 64, 65, 66, 100, 128, 129]);
         Geo { cols, lines }
     } else {
         match r.below(10) {
@@ -160,6 +176,7 @@ pub fn num(r: &mut Rng, g: Geo) -> String {
         90..=91 => format!("{}", r.range(10000, 70000)),
         92..=93 => "99999999999999999999".into(),
         94 => "00000000000000000000000007".into(),
+        95..=96 => format!("{}", r.pick(WORDISH)),
         _ => format!("{}", r.range(0, 300)),
     }
 }
@@ -178,6 +195,7 @@ pub fn api_num(r: &mut Rng, g: Geo) -> Option<u32> {
         }
         75..=86 => Some(r.range(3, 12) as u32),
         87..=92 => Some(9999),
+        93..=94 => Some(*r.pick(WORDISH)),
         _ => Some(r.range(0, 9999) as u32),
     }
 }
@@ -610,12 +628,52 @@ fn marker_fill(r: &mut Rng, out: &mut Vec<u8>, g: Geo, utf8: bool) {
             }
         }
     }
+    if r.chance(1, 3) {
+        sparse_fill(r, out, g, k);
+    }
     if r.chance(1, 2) {
         out.extend_from_slice(b"\x1b[m");
     }
     let row = r.range(1, g.lines as u64);
     let col = r.range(1, g.cols as u64 + 1);
     out.extend_from_slice(format!("\x1b[{};{}H", row, col).as_bytes());
+}
+
+/// Isolated markers anywhere on the screen (also below row 12 and right of column 40, which
+/// marker_fill leaves alone): rows that store a few far-apart cells and nothing in between,
+/// some of them a whole number of 64-column words apart.
+fn sparse_fill(r: &mut Rng, out: &mut Vec<u8>, g: Geo, mut k: usize) {
+    let alphabet = NARROW.as_bytes();
+    if r.chance(1, 4) {
+        // a vertical stripe: every row of the screen stores something
+        let col = r.range(1, g.cols as u64);
+        for row in 1..=g.lines {
+            out.extend_from_slice(format!("\x1b[{};{}H", row, col).as_bytes());
+            out.push(alphabet[k % alphabet.len()]);
+            k += 1;
+        }
+        return;
+    }
+    let n = r.range(2, 9);
+    let mut row = r.range(1, g.lines as u64);
+    let mut col = r.range(1, g.cols as u64);
+    for _ in 0..n {
+        out.extend_from_slice(format!("\x1b[{};{}H", row, col).as_bytes());
+        out.push(alphabet[k % alphabet.len()]);
+        k += 1;
+        match r.below(4) {
+            0 => {
+                row = r.range(1, g.lines as u64);
+                col = r.range(1, g.cols as u64);
+            }
+            1 => col = r.range(1, g.cols as u64),
+            _ => {
+                // same row, a word-ish distance away (wrapping around the width)
+                let d = *r.pick(&[32u64, 64, 64, 128, 128, 192]);
+                col = (col - 1 + d) % g.cols as u64 + 1;
+            }
+        }
+    }
 }
 
 /// modes a program sets up before it starts typing: insert mode, autowrap off, newline mode,
@@ -1220,20 +1278,21 @@ pub fn api_op(r: &mut Rng, g: Geo, focus: Focus) -> Op {
 }
 
 pub fn resize_target(r: &mut Rng, g: Geo, cur: Geo) -> (u32, u32) {
-    // (lines, columns)
+    // (lines, columns); the envelope is 140x40 unless the run started on a bigger screen
+    let (cap_l, cap_c) = (g.lines.max(40), g.cols.max(140));
     match r.below(12) {
         0 => (cur.lines, cur.cols),
         1 => (1, 1),
-        2 => (cur.lines, (cur.cols + r.range(1, 5) as u32).min(140)),
+        2 => (cur.lines, (cur.cols + r.range(1, 5) as u32).min(cap_c)),
         3 => (cur.lines, cur.cols.saturating_sub(r.range(1, 3) as u32).max(1)),
-        4 => ((cur.lines + r.range(1, 3) as u32).min(40), cur.cols),
+        4 => ((cur.lines + r.range(1, 3) as u32).min(cap_l), cur.cols),
         5 => (cur.lines.saturating_sub(r.range(1, 3) as u32).max(1), cur.cols),
         6 => (g.lines, g.cols),
         7 => (r.range(1, (g.lines + 2) as u64) as u32, r.range(1, (g.cols + 2) as u64) as u32),
         8 => (1, r.range(1, 20) as u32),
         9 => (r.range(1, 12) as u32, 1),
-        10 => ((cur.lines + 1).min(40), (cur.cols + 1).min(140)),
-        _ => (r.range(1, 40) as u32, r.range(1, 140) as u32),
+        10 => ((cur.lines + 1).min(cap_l), (cur.cols + 1).min(cap_c)),
+        _ => (r.range(1, cap_l as u64) as u32, r.range(1, cap_c as u64) as u32),
     }
 }
 
